@@ -311,10 +311,15 @@ def rel_queries(db, prop):
             bnames.add(part)
     qs, skipped = [], []
     only = set(os.environ['VERIF_ONLY'].split(',')) if os.environ.get('VERIF_ONLY') else None
-    for name, kind in sorted(l3.l3_routines(db).items()):
+    KERNELS = ['decay0_gamma', 'decay0_electron', 'decay0_positron', 'decay0_alpha', 'decay0_pair', 'decay0_nucltransK',
+               'decay0_nucltransKL', 'decay0_nucltransKLM', 'decay0_nucltransKLM_Pb', 'PbAtShell']
+    cands = sorted(l3.l3_routines(db).items()) + [(k, 'kernel') for k in KERNELS if k in db['funcs']]
+    for name, kind in cands:
         if only and name not in only:
             continue
-        is_bkg = name in bnames or name in ('Sc48', 'Nb96', 'Po212')
+        is_bkg = name in bnames or name in ('Sc48', 'Nb96', 'Po212') or kind == 'kernel'
+        if kind == 'kernel' and prop == 'C02' and name != 'PbAtShell':
+            is_bkg = False   # the emission kernels serve both properties
         if (prop == 'C01') != is_bkg:
             continue
         if rel.ref_name_for(name, prog) is None:
@@ -329,8 +334,75 @@ def rel_queries(db, prop):
             q['meta']['what'] = 'rel'
             ch = q['meta'].get('chunk')
             qid = 'rel/%s' % name + ('' if not ch else '/cuts%d-%d' % (ch[0], ch[1]))
-            qs.append(Query(qid, q['c'], checks=['--bounds-check'], meta=q['meta'], timeout=900, mem_gb=10))
+            qs.append(Query(qid, q['c'], checks=['--no-standard-checks', '--bounds-check'], meta=q['meta'], timeout=900, mem_gb=10))
     return qs, skipped
+
+
+def genbb_queries(db, prop, known):
+    import genbb, f77c
+    qs, skipped = [], []
+    bkg, dbd = native.catalogues()
+    only = set(os.environ['VERIF_ONLY'].split(',')) if os.environ.get('VERIF_ONLY') else None
+    if prop == 'C06':
+        prog = f77c.Program(REF_FOR)
+        lv = genbb.readme_levels()
+        names = list(dbd) + ['Xx99', 'Ca4', 'Po210', 'Nd15']
+        for name in names:
+            if only and name not in only:
+                continue
+            qid = 'genbbsub/c06/%s' % name
+            kw = [k['site'] for k in known if k['qid'] == qid and k.get('site')]
+            try:
+                q = genbb.build_c06_query(db, prog, name, lv.get(name), known_where=kw)
+            except (bx2c.Unsupported, f77c.Unsupported) as e:
+                skipped.append((name, 'NOT COVERED: ' + str(e)[:300]))
+                continue
+            qs.append(Query(qid, q['c'], checks=['--no-standard-checks', '--bounds-check', '--pointer-check'], meta=q['meta'], timeout=600))
+    else:
+        ids = {}
+        for name in bkg:
+            try:
+                genbb.build_c05_query(db, name, ids)
+            except Exception:
+                pass
+        for name in bkg:
+            if only and name not in only:
+                continue
+            try:
+                q = genbb.build_c05_query(db, name, ids)
+            except bx2c.Unsupported as e:
+                skipped.append((name, 'NOT COVERED: ' + str(e)[:300]))
+                continue
+            qs.append(Query('genbbsub/c05/%s' % name, q['c'], checks=['--no-standard-checks', '--bounds-check', '--pointer-check'],
+                            meta=q['meta'], timeout=600, extra=('--unwind', '20', '--object-bits', '12')))
+    return qs, skipped
+
+
+def catalogue_obligations(db):
+    """C05 static facts: README lists, resource list files and the names genbbsub tests are the same sets.
+    Returns list of (description, ok, detail) -- decided by set comparison on data read at run time (supporting static
+    facts, not CBMC obligations; reported separately in the evidence)."""
+    import genbb
+    bkg, dbd = native.catalogues()
+    rb, rd = genbb.readme_names()
+    lits = genbb.dispatch_literals(db)
+    out = []
+    def same(readme, lis):
+        # a README entry is "``short``" or "``short`` (for ``long``)"; the list file carries one of the two spellings
+        diff = [n for n in lis if sum(1 for s_, l_ in readme if n in (s_, l_)) != 1]
+        diff += [l_ for s_, l_ in readme if sum(1 for n in lis if n in (s_, l_)) != 1]
+        return diff
+    d1 = same(rb, bkg)
+    d2 = same(rd, dbd)
+    out.append(('README background list == background_isotopes.lis', not d1, d1))
+    out.append(('README double-beta list == dbd_isotopes.lis', not d2, d2))
+    pub = set(dbd) | set(bkg)
+    heads = {n.split('+')[0] for n in pub}
+    unknown = sorted(l for l in set(lits) if not any(h.startswith(l) or l.startswith(h) for h in heads))
+    out.append(('every name tested by genbbsub is a published name', not unknown, unknown))
+    missing = sorted(h for h in heads if not any(h.startswith(l) for l in set(lits)))
+    out.append(('every published name is tested by genbbsub', not missing, missing))
+    return out
 
 
 def evis_queries(db, contracts, consts):
@@ -581,6 +653,37 @@ def prop_l3(prop, tier, seed):
                     assumptions=ASSUMPTIONS.get(prop, []))
 
 
+def prop_genbb(prop, tier, seed):
+    t0 = time.time()
+    db = load_db()
+    known, fixed = load_known()
+    sc = selfcheck_summary(db, tier, seed)
+    if sc['differences']:
+        log('extraction self-check failed: %s' % sc['first_differences'])
+        return 2
+    queries, skipped = genbb_queries(db, prop, known)
+    results = run_all(queries)
+    extra = {}
+    rc_static = 0
+    if prop == 'C05':
+        cat = catalogue_obligations(db)
+        extra['catalogue_facts'] = [{'fact': d, 'holds': ok, 'difference': diff} for d, ok, diff in cat]
+        for d, ok, diff in cat:
+            if not ok:
+                k = match_known(known, 'C05', 'catalogue', d)
+                if k:
+                    print('KNOWN-FINDING: property=C05 catalogue :: %s -- %s' % (d, k['text']))
+                else:
+                    os.makedirs(os.path.join(REPLAYS, 'C05'), exist_ok=True)
+                    rp = os.path.join(REPLAYS, 'C05', 'catalogue.' + hashlib.sha256(d.encode()).hexdigest()[:8] + '.json')
+                    json.dump({'property': 'C05', 'obligation': 'catalogue :: ' + d, 'difference': diff,
+                               'note': 'static set comparison of README.rst, resources/description/*.lis and the string literals of genbbsub'}, open(rp, 'w'), indent=1)
+                    print('VIOLATION property=C05 replay=%s obligation="catalogue :: %s" difference=%s' % (rp, d, diff))
+                    rc_static = 1
+    rc = evaluate(prop, queries, results, known, tier, seed, t0, skipped=skipped, selfcheck=sc, assumptions=ASSUMPTIONS.get(prop, []), extra_cov=extra)
+    return rc if rc != 0 else rc_static
+
+
 def prop_rel(prop, tier, seed):
     t0 = time.time()
     db = load_db()
@@ -600,6 +703,12 @@ def prop_rel(prop, tier, seed):
 
 
 ASSUMPTIONS = {
+    'C05': ['scheme routines are replaced by the abstract effect "log my id, append 1..3 particles, return a decay time"; that each routine IS its scheme is C01/C04',
+            'double-beta names: dispatch to the *low cascade is covered by C06/C03 obligations, not here',
+            'bb_utils.cc list-file parser and the CLI/Geant4 consumers (std::map/ifstream) are outside the C subset: not covered'],
+    'C06': ['GENBBsub character tests are evaluated for each concrete published name by f77c; the numeric part is the rendered reference',
+            'gA routing, energy-window validation and the label<->mode maps live in decay0_generator.cc/bb_utils.cc (STL/iostream): not covered',
+            'decay0_bb(init) is a no-op stub here (its effect on the spectrum tables is not part of the accept/reject decision)'],
     'C01': ['f77c renders the reference faithfully (no Fortran compiler offline to cross-check); reference REAL arithmetic is rendered as double',
             'simulation meta-lemma: segment-wise preservation of the relation from related states implies equal traces for whole runs',
             'callees are related by their own obligations; here they are the same uninterpreted effect on both sides',
@@ -630,6 +739,8 @@ def main():
             return prop_l3(cmd, tier, seed)
         if cmd in ('C01', 'C02'):
             return prop_rel(cmd, tier, seed)
+        if cmd in ('C05', 'C06'):
+            return prop_genbb(cmd, tier, seed)
         log('property %s is not claimed (see MANIFEST.not_applicable)' % cmd)
         return 2
     except Exception:
